@@ -257,11 +257,12 @@ func Check(root, id, tier string, seed uint64) (*Result, error) {
 		}
 		// option values with punctuation: a package-qualified custom duration type, a target package with a dash
 		{
-			qp := QualifiedValuesProgram(corpus)
-			cs, ks := C16Cases(qp, seed+55, tier, 2)
-			cases = append(cases, cs...)
-			for k, v := range ks {
-				kinds[k] += v
+			for qi, qp := range []*spec.Program{QualifiedValuesProgram(corpus), PartialTypesProgram(corpus)} {
+				cs, ks := C16Cases(qp, seed+55+uint64(qi), tier, 2)
+				cases = append(cases, cs...)
+				for k, v := range ks {
+					kinds[k] += v
+				}
 			}
 		}
 		cov["clauses"] = kinds
